@@ -228,7 +228,7 @@ def optionRecordsOf (sets : List FlowSet) : List OptionsDataRecord :=
 
 /-- NetFlowLookFor + NetFlowPopulate into a *uint32: first non-enterprise field of that type;
     found even when the value is nil; the value is decoded as an unsigned number of any width up to
-    8 bytes (reduced-size encoding), truncated to 32 bits. -/
+    8 bytes (reduced-size encoding), truncated to 32 bits; wider values are ignored. -/
 def populate (fields : List DataField) (typeId : Nat) : Res (Option Nat) :=
   match fields.find? (fun f => !f.penProvided && f.type == typeId) with
   | none => .ok none
@@ -236,6 +236,8 @@ def populate (fields : List DataField) (typeId : Nat) : Res (Option Nat) :=
     match f.value with
     | none => .ok (some 0)                 -- exists, value nil: found, nothing written (caller keeps 0)
     | some v =>
+      if v.length > 8 then .ok none          -- not a number: ignored, the lookup goes on
+      else
       match decodeUNumber 32 v with
       | .error e => .error e
       | .ok x => .ok (some x)
